@@ -351,14 +351,17 @@ func writeRuleHash(state *core.BuildState, target *core.BuildTarget) error {
 	outputs := target.FullOutputs()
 	if len(outputs) == 0 {
 		// Target has no outputs, have to use the fallback file.
+		verifOp(target, "stamp-fallback", filepath.Join(target.OutDir(), target.Label.Name))
 		return fs.RecordAttrFile(filepath.Join(target.OutDir(), target.Label.Name), hash)
 	}
 	for _, output := range outputs {
+		verifOp(target, "stamp-out", output)
 		if err := fs.RecordAttr(output, hash, xattrName, state.XattrsSupported); err != nil {
 			return err
 		}
 	}
 	if fs.FileExists(targetBuildMetadataFileName(target)) {
+		verifOp(target, "stamp-md", targetBuildMetadataFileName(target))
 		return fs.RecordAttr(targetBuildMetadataFileName(target), hash, xattrName, state.XattrsSupported)
 	}
 	return nil
@@ -390,12 +393,14 @@ func loadTargetMetadata(target *core.BuildTarget) (*core.BuildMetadata, error) {
 // StoreTargetMetadata stores the target metadata into a file in the output directory of the target.
 func StoreTargetMetadata(target *core.BuildTarget, md *core.BuildMetadata) error {
 	filename := targetBuildMetadataFileName(target)
+	verifOp(target, "md-remove", filename)
 	if err := fs.RemoveAll(filename); err != nil {
 		return fmt.Errorf("failed to remove existing %s build metadata file: %w", target.Label, err)
 	} else if err := os.MkdirAll(filepath.Dir(filename), core.DirPermissions); err != nil {
 		return fmt.Errorf("Failed to create directory for build metadata file for %s: %w", target, err)
 	}
 
+	verifOp(target, "md-create", filename)
 	mdFile, err := os.Create(filename)
 	if err != nil {
 		return fmt.Errorf("failed to create new %s build metadata file: %w", target.Label, err)
@@ -403,6 +408,7 @@ func StoreTargetMetadata(target *core.BuildTarget, md *core.BuildMetadata) error
 
 	defer mdFile.Close()
 
+	verifOp(target, "md-write", filename)
 	writer := gob.NewEncoder(mdFile)
 	if err := writer.Encode(md); err != nil {
 		return fmt.Errorf("failed to encode %s build metadata file: %w", target.Label, err)
